@@ -77,12 +77,16 @@ pub fn canon_streams(name: &[u8], v: V) -> V {
 // ---------------------------------------------------------------- pools
 pub const SKEYS: &[&[u8]] = &[b"x1", b"x2", b"x3", b""];
 pub const STRKEY: &[u8] = b"str1";
-/// explicit IDs: small, colliding, with sequence numbers, boundaries, wrapping text
+/// explicit IDs: small, colliding, with sequence numbers, boundaries
 pub const SMALL_IDS: &[&[u8]] = &[b"1-0", b"1-1", b"2-0", b"2-5", b"3-0", b"3-1", b"4-0", b"5-0", b"5-1", b"5-2", b"6-0", b"7-0",
     b"7-3", b"8-0", b"9-0", b"10-0", b"11-0", b"12-0", b"0-1", b"0-2", b"1-18446744073709551615", b"3-18446744073709551615",
     b"20-0", b"21-0", b"22-0", b"23-0", b"30-0", b"30-1", b"30-2", b"50-0"];
+/// texts that are not IDs (3be45c2: an empty part or a number above u64::MAX is refused, no longer read as 0 / wrapped
+/// around), special forms in the wrong place, and unusual spellings of valid IDs (leading zeros)
 pub const ODD_IDS: &[&[u8]] = &[b"0-0", b"-", b"5-", b"-5", b"5", b"abc", b"5-x", b"", b"+", b"(5-0", b"18446744073709551616-0",
-    b"18446744073709551617-1", b"5-18446744073709551616", b"1-2-3", b"007-01", b" 5-0", b"\xff-1", b"$", b">", b"0"];
+    b"18446744073709551617-1", b"5-18446744073709551616", b"1-2-3", b"007-01", b" 5-0", b"\xff-1", b"$", b">", b"0",
+    b"--", b"5--1", b"+5-1", b"5-+1", b"99999999999999999999-1", b"1-99999999999999999999", b"18446744073709551615-18446744073709551616",
+    b"184467440737095516150-0", b"00000000000000000000007-1", b"7-000000000000000000000", b"6-", b"-0", b"0-", b"5-0 ", b"5-0\n", b"5_0", b"-5-0"];
 /// ahead of the wall clock (auto IDs then continue the sequence), incl. exhausted sequence
 /// numbers (the next auto ID rolls over to the next millisecond) and the last possible ID
 /// (XADD * is then refused) - the former crash class xadd-seq-overflow, fixed by fb507d0
@@ -395,7 +399,7 @@ pub fn judge(c: &Case, outs: &[Vec<Tok>]) -> Vec<String> {
                     let s = db.entry(key).or_default();
                     if let Some(m) = s.max_ever { if id <= m { fail(format!("XADD returned {:?} not greater than {:?} added before", id, m)); } }
                     if a[2] != b"*" && parse_id_strict(&a[2]) != Some(id) {
-                        fail(format!("class=stream-id-text XADD {:?} stored as {:?}", String::from_utf8_lossy(&a[2]), id));
+                        fail(format!("XADD {:?} stored as {:?}: the ID text does not denote that ID", String::from_utf8_lossy(&a[2]), id));
                     }
                     let mut f: Vec<(Vec<u8>, Vec<u8>)> = vec![];
                     for ch in a[3..].chunks(2) { if ch.len() == 2 { f.push((ch[0].clone(), ch[1].clone())); } }
@@ -410,8 +414,10 @@ pub fn judge(c: &Case, outs: &[Vec<Tok>]) -> Vec<String> {
             }
             b"XDEL" if a.len() >= 3 => {
                 if unknown.contains(&a[1]) { continue; }
+                let ids: Option<Vec<Id>> = a[2..].iter().map(|x| parse_id_strict(x)).collect();
+                // ID text is exact: a text that is not <u64>-<u64> must be refused, whatever the key holds
+                if ids.is_none() && !matches!(rep, V::Error(_)) { fail("XDEL accepted a text that is not an ID".to_string()); }
                 if let (V::Int(n), Some(s)) = (&rep, db.get_mut(&a[1])) {
-                    let ids: Option<Vec<Id>> = a[2..].iter().map(|x| parse_id_strict(x)).collect();
                     if let Some(ids) = ids {
                         let mut cnt = 0; for i in ids { if s.entries.remove(&i).is_some() { cnt += 1; } }
                         if cnt != *n { fail(format!("XDEL answered {} but {} listed entries were present", n, cnt)); }
@@ -445,6 +451,7 @@ pub fn judge(c: &Case, outs: &[Vec<Tok>]) -> Vec<String> {
                 let (sb, eb) = if revr { (&a[3], &a[2]) } else { (&a[2], &a[3]) };
                 let st = if sb == b"-" { Some((0, 0)) } else { parse_id_strict(sb) };
                 let en = if eb == b"+" { Some((u64::MAX, u64::MAX)) } else { parse_id_strict(eb) };
+                if (st.is_none() || en.is_none()) && matches!(rep, V::Array(_)) { fail(format!("{} accepted a bound that is not an ID", String::from_utf8_lossy(&name))); }
                 let count: Option<usize> = if a.len() == 6 && a[4].to_ascii_uppercase() == b"COUNT" { match std::str::from_utf8(&a[5]).ok().and_then(|t| t.parse().ok()) { Some(n) => Some(n), None => continue } } else if a.len() == 4 { None } else { continue };
                 if let (Some(st), Some(en), Some(got), Some(s)) = (st, en, entry_ids(&rep), db.get(&a[1])) {
                     let mut want: Vec<Id> = s.entries.keys().filter(|i| st <= **i && **i <= en).cloned().collect();
